@@ -23,24 +23,31 @@ Alphabet ==
     [] Profile = "attr" -> {S("mark", "x", UNSET, a) : a \in {"i", "u", "l", "x"}} \cup {S("mark", "x", E11, "i"), S("mark", "x", A, "u"), S("mark", "x", B, "l")}
                             \cup {S("asg", "x", v, "plain") : v \in {A, B, N5, E11}} \cup {S("asg", "x", N5, "append"), S("asg", "x", A, "append"), S("asg", "x", B, "elem"), S("asg", "x", N5, "arith"), S("asg", "x", B, "read")}
                             \cup {S("local", "x", UNSET, "i"), S("local", "x", A, "u"), Enter, Leave, S("unset", "x", UNSET, "")}
+    [] Profile = "tmpro" -> {S("mark", "x", UNSET, "r"), S("mark", "x", N5, "r"), S("tenter", "y", N5, ""), S("tenter", "x", B, ""), S("asg", "x", A, "plain"), S("asg", "x", A, "for"), S("asg", "x", N5, "arith"),
+                             S("asg", "x", A, "read"), S("asg", "y", A, "plain"), S("unset", "y", UNSET, ""), S("unset", "x", UNSET, ""), S("local", "y", B, ""), S("mark", "y", UNSET, "x"), Enter, Leave}
     [] Profile = "export" -> {S("mark", "x", UNSET, "x"), S("mark", "x", A, "x"), S("mark", "y", B, "x"), S("asg", "x", B, "plain"), S("asg", "y", A, "plain"), S("unset", "x", UNSET, ""), S("unset", "y", UNSET, ""),
                               S("local", "x", A, ""), S("local", "x", UNSET, "x"), S("local", "y", UNSET, ""), Enter, Leave, S("tenter", "x", N5, ""), S("tenter", "y", A, ""), S("mark", "x", UNSET, "r")}
 
-VARIABLES prog, sc, trace
-vars == <<prog, sc, trace>>
-Init == prog = <<>> /\ sc = <<Frame("g")>> /\ trace = <<>>
+VARIABLES prog, sc, trace, dead
+vars == <<prog, sc, trace, dead>>
+Init == prog = <<>> /\ sc = <<Frame("g")>> /\ trace = <<>> /\ dead = FALSE
+\* a bare assignment that a readonly variable refuses, inside a function: the error unwinds every function in progress and
+\* execution goes on after the top-level command (nothing more of the program is observed but the state at top level)
+Aborts(st) == /\ st.op = "asg" /\ st.w \in {"plain", "append", "elem"} /\ Len(sc) > 1
+              /\ Get(sc, st.n) # NONE /\ Get(sc, st.n).r
 Allowed(st) == CASE st.op \in {"enter", "tenter"} -> Len(sc) < 4
                  [] st.op = "leave" -> Len(sc) > 1
                  [] st.op = "local" -> Len(sc) > 1
                  [] OTHER -> TRUE
-Next == /\ Len(prog) < L
+Next == /\ Len(prog) < L /\ ~dead
         /\ \E st \in Alphabet : /\ Allowed(st)
                                 /\ prog' = Append(prog, st)
-                                /\ sc' = Step(sc, st)
-                                /\ trace' = Append(trace, Obs(Step(sc, st)))
+                                /\ IF Aborts(st)
+                                   THEN /\ sc' = <<sc[1]>> /\ dead' = TRUE /\ trace' = Append(trace, Obs(<<sc[1]>>))
+                                   ELSE /\ sc' = Step(sc, st) /\ dead' = FALSE /\ trace' = Append(trace, Obs(Step(sc, st)))
 RECURSIVE Closing(_)
 Closing(s) == IF Len(s) = 1 THEN <<>> ELSE LET s2 == Step(s, Leave) IN <<Obs(s2)>> \o Closing(s2)
-Emit == Len(prog) < L \/ PrintT(<<"PROG", ToJson([prog |-> prog, obs |-> trace, closing |-> Closing(sc)])>>)
+Emit == (Len(prog) < L /\ ~dead) \/ PrintT(<<"PROG", ToJson([prog |-> prog, obs |-> trace, closing |-> Closing(sc), dead |-> dead])>>)
 RoOK == \A st \in Alphabet : Allowed(st) => ReadonlyStable(sc, st)
 NeutralOK == Len(sc) >= 4 \/ EnterLeaveNeutral(sc)
 =============================================================================
